@@ -133,6 +133,38 @@ def ob_subclass(ctx):
     return True
 
 
+def ob_edit_between(ctx):
+    """the reverse complement is computed from the record as it is now: edits made to an earlier result are honoured and
+    results never alias an earlier record"""
+    st = ctx.stack
+    n = ctx.P["n"]
+    r, specs, rec = _make(ctx, n, (1,), "sym")
+    r1 = rec.reverse_complement()
+    ctx.require(r1 is not rec, "result-aliases-the-receiver")
+    extra = mk_parts(ctx, "x", 1, n)
+    r1.features.append(build_feature(st, extra, "primer_bind", {"label": ["new"]}, fid="idx"))
+    if ctx.P["edit_seq"]:
+        s2 = ctx.mk.seq("s2", n, "ACGT")
+        r1.seq = st.Seq(s2)
+    else:
+        s2 = None
+    out = r1.reverse_complement()
+    ctx.observe("out", out)
+    ctx.require(out is not rec and out is not r1, "second-result-aliases-an-earlier-record")
+    o = sdata(out.seq)
+    if s2 is None:
+        ctx.require(seq_eq(o, r), "twice-sequence")
+    else:
+        ctx.require(And([Eq(sat(o, j), scomp_code(sat(s2, n - 1 - j))) for j in range(n)]), "edited-sequence-ignored")
+    fo = _by_id(out)
+    ctx.require(sorted(fo) == ["id0", "idx"], "feature-added-in-between-lost:%s" % sorted(fo))
+    _mirrored(ctx, extra, parts_of(fo["idx"]), n, "flip-new", False)
+    _same(ctx, specs[0], parts_of(fo["id0"]), n, "twice-f0")
+    # the original is untouched by all of this
+    ctx.require(len(rec.features) == 1 and seq_eq(rec.seq, r), "original-changed")
+    return True
+
+
 def obligations(tier, seed):
     obs = []
     nmax = tier_pick(tier, 10, 16)
@@ -150,4 +182,8 @@ def obligations(tier, seed):
             if n <= tier_pick(tier, 8, 12) and sum(shape) <= 2:
                 obs.append(Ob("commute " + name, ob_commute, dict(n=n, shape=shape, strand=strand), samples=5, cost=3 * c))
     obs.append(Ob("subclass and argument pass-through", ob_subclass, {}, samples=2, cost=1))
+    for n in ((3, 6) if tier == "quick" else (2, 3, 5, 8, 10)):
+        for edit_seq in (False, True):
+            obs.append(Ob("edit between two reverse complements n=%d%s" % (n, " (sequence replaced)" if edit_seq else ""),
+                          ob_edit_between, dict(n=n, edit_seq=edit_seq), samples=4, cost=n * 10))
     return obs
